@@ -136,6 +136,20 @@ def run_log(chk, log, refs, workdir, trunc_fraction=0.5, label=""):
     cache = make_recording_cache(d)
     files_of = {}
     n = 0
+    # the caller's arrays: the SAME z / profile array objects are used for every request of the history and updated in
+    # place (a sweep over met conditions does exactly that) - the cache must key on their contents, not on their identity
+    shared = {}
+
+    def in_place(kw):
+        if "z" not in shared:
+            shared["z"] = np.array(kw["z"], dtype=float)
+            shared["profiles"] = tuple(np.array(a, dtype=float) for a in kw["profiles"])
+        else:
+            np.copyto(shared["z"], kw["z"])
+            for dst, src in zip(shared["profiles"], kw["profiles"]):
+                np.copyto(dst, src)
+        return dict(kw, z=shared["z"], profiles=shared["profiles"])
+
     for idx, op in enumerate(log):
         kind = op["op"]
         sc = {"kind": "history", "log": log, "failed_at": idx, "variant": label}
@@ -164,7 +178,7 @@ def run_log(chk, log, refs, workdir, trunc_fraction=0.5, label=""):
             try:
                 cmod.np = _NumpyProxy(saved_np, CrashingSavez(trunc_fraction))
                 try:
-                    call_solver(q, kw, cache=cache)
+                    call_solver(q, in_place(kw), cache=cache)
                 except SimulatedCrash:
                     pass
                 except Exception as ex:
@@ -179,7 +193,7 @@ def run_log(chk, log, refs, workdir, trunc_fraction=0.5, label=""):
         before = stat()
         g0, p0 = len(cache.gets), cache.puts
         try:
-            out = call_solver(q, kw, cache=cache)
+            out = call_solver(q, in_place(kw), cache=cache)
         except Exception as ex:
             chk.violation("request raised %s: %s (a cache entry must never be fatal)" % (type(ex).__name__, str(ex)[:100]), sc, klass={"check": "fatal", "exception": type(ex).__name__})
             return n
